@@ -1640,6 +1640,14 @@ func (fr *frame) atCall(callee *ssa.Function, ins ssa.Instruction) {
 			continue
 		}
 		env := fr.baseEnv()
+		// the actual arguments of this call: arg0, arg1, ...
+		if ci, ok := ins.(ssa.CallInstruction); ok {
+			for i, a := range ci.Common().Args {
+				if _, dup := env.vars[fmt.Sprintf("arg%d", i)]; !dup {
+					env.vars[fmt.Sprintf("arg%d", i)] = fr.argVal(fr.val(a))
+				}
+			}
+		}
 		vc := fr.vc
 		vc.oblige("at-call", fmt.Sprintf("%s/at-call[%s: %s#%d]", vc.Name, cl.Name, clauseLabel(cl), fr.occ("atcall:"+cl.Name+clauseLabel(cl))), fr.guard, env.evalBool(cl.Expr), fr.pos(ins.Pos()))
 	}
